@@ -97,3 +97,18 @@ def rules(t):
     out.append(shared.slots_match_limit(t, "C10.f"))
     out.append(W3.index_space(t, "C10.g"))
     return out
+
+_rules_C10_w5d = rules
+def rules(t, *a, **kw):
+    import rules.wave5 as W5
+    out = _rules_C10_w5d(t, *a, **kw)
+    out.append(W5.no_stored_slot_index(t, "C10.h"))
+    return out
+
+_rules_C10_w5e = rules
+def rules(t, *a, **kw):
+    import rules.wave5 as W5
+    out = _rules_C10_w5e(t, *a, **kw)
+    out.append(W5.lookup_key_only(t, "C10.i"))
+    out.append(W5.free_slot_only(t, "C10.j"))
+    return out
